@@ -1,5 +1,5 @@
 From Coq Require Import Arith NArith ZArith Bool List.
-Require Import Canon SemTk TableProto CacheProto RawProto EdaProto SignalProto BddBase BddReach Hashes.
+Require Import Canon SemTk TableProto CacheProto RawProto EdaProto SignalProto BddBase BddIte BddReach Glue Hashes.
 Import ListNotations.
 Local Open Scope N_scope.
 
@@ -26,6 +26,13 @@ Definition tbl_new (bits bucket_bits : N) : table N :=
 Definition tbl_put (hk : N) (fuel : nat) (t : table N) (v : N) : res (table N * N) := TableProto.put N N.eqb (hkind hk) fuel t v.
 Definition tbl_sweep (fuel : nat) (t : table N) (alive : list N) : res (table N) :=
   sweep_all N (fun i => existsb (N.eqb i) alive) fuel t (nrange (N.to_nat (nb t)) 0).
+
+(* ---- Table<Node> driven directly with arbitrary node values and the crate's own node hash (crafted 64-bit hash collisions) ---- *)
+Definition ntbl_new (bits bucket_bits : N) : table node :=
+  {| data := tset (tconst {| value := Node 0 (R 0 false) (R 0 false); next := 0; occ := false |}) 0
+                  {| value := Node 0 (R 0 false) (R 0 false); next := 0; occ := true |};
+     buckets := tconst 0; nb := 2 ^ bucket_bits; cap := 2 ^ bits; min_free := 1; last_index := 0; real_size := 0 |}.
+Definition ntbl_put (fuel : nat) (t : table node) (n : node) : res (table node * N) := TableProto.put node node_eqb nhash fuel t n.
 
 (* ---- Cache<K, V> with number keys, and with the manager's own OpKey / Ref instance ---- *)
 Definition ncache := CacheProto.lcache N N.
